@@ -9,6 +9,7 @@ import os
 import pathlib
 import pickle
 import random
+import threading
 from functools import lru_cache, partial, reduce
 from operator import or_
 
@@ -674,7 +675,9 @@ class DiskDict:
             # write file! -> to a temporary file first, which is then moved
             # into place atomically, so that a process dying mid-write can
             # never leave a partially written entry behind
-            tmpname = fname.with_name(f".{fname.name}.{os.getpid()}.tmp")
+            tmpname = fname.with_name(
+                f".{fname.name}.{os.getpid()}.{threading.get_ident()}.tmp"
+            )
             with open(tmpname, "wb") as f:
                 pickle.dump(v, f)
             os.replace(tmpname, fname)
